@@ -223,9 +223,11 @@ FwOK(i, v, vd, verdict) ==
           \/ AllPosIn(vd, Ions(i)) /\ AbsI(LnQ(i, vd, Ions(i)) - lnK[i]) <= BandFw
 \* backward condition (precipitate so far): it stays iff its amount is not negative
 BwExpected(i, v) == UnitsOf(v, SolidPos(i)) >= 0
+\* (guard band: an amount that counts as absent - at most 1e-9 of the scale, cf. SaltOK - may be
+\* dropped or kept; the code compares with an absolute threshold of its own, 2.3e-16 mol/l for NumSysLog)
 BwOK(i, v, verdict) ==
     LET u == UnitsOf(v, SolidPos(i)) IN
-    \/ AbsI(u) <= BandZero
+    \/ AbsI(u) <= BandAbsent
     \/ verdict = (u > 0)
 
 \* The bracketing scalar solver (brentq on the reaction coordinate) locates the coordinate to an
